@@ -299,6 +299,8 @@ func checkC15(c *Ctx, r *Report) {
 			r.Check(okExt, "F14-ext", pk.Format+": file name ends in the conventional extension", c.pos(pk.FileName.Pos()), fmt.Sprintf("ConventionalExtension() is %q; the file name's format string must end with it", ext))
 		}
 	}
+	// same expression on both sides where the code composes both (rpm, apk)
+	checkSameVersionExpr(c, r)
 	// W3 (shared with C11)
 	tmp := newReport("tmp")
 	checkPackagerStores(c, tmp)
@@ -399,6 +401,20 @@ func checkCLITarget(c *Ctx, r *Report) {
 	flatten(phi, nil, 0)
 	r.Check(joinSorted(kinds) == "conventional,given,joined" && len(detail) == 0, "CLI-target", "doPackage: path handed to os.Create", c.instrPos(create),
 		fmt.Sprintf("forms found {%s} %v; expected exactly: the given target, the conventional name when no target is given, and Join(target, conventional name) when the target is a directory", joinSorted(kinds), detail))
+	// "is a directory" is decided by os.Stat (which follows symbolic links)
+	okStat := false
+	forEachInstr(dp, func(in ssa.Instruction) {
+		call, ok := in.(*ssa.Call)
+		if !ok || !call.Call.IsInvoke() || call.Call.Method.Name() != "IsDir" {
+			return
+		}
+		if ex, ok := call.Call.Value.(*ssa.Extract); ok {
+			if st, ok := ex.Tuple.(*ssa.Call); ok && calleeIs(st, "os", "", "Stat") && st.Call.Args[0] == ssa.Value(targetParam) {
+				okStat = true
+			}
+		}
+	})
+	r.Check(okStat, "CLI-target", "doPackage: directory test is os.Stat(target).IsDir()", c.pos(dp.Pos()), "an existing directory — also one reached through a symbolic link — must be recognised: the test must use os.Stat on the given target")
 	// info.Target gets the same value
 	okTarget := false
 	forEachInstr(dp, func(in ssa.Instruction) {
@@ -482,4 +498,121 @@ func edgeOfTest(b *ssa.BasicBlock, pred func(*ssa.BinOp) bool) bool {
 		}
 	}
 	return false
+}
+
+
+// valueExpr renders a string-valued SSA expression structurally (go/ssa has
+// no CSE): calls by callee and argument expressions, field loads by path.
+func valueExpr(c *Ctx, v ssa.Value, depth int) string {
+	if depth > 8 || v == nil {
+		return "?"
+	}
+	if isPtrToNamed(v.Type(), modPath, "Info") {
+		return "Info" // every *Info in a packager is the one being packaged
+	}
+	switch x := v.(type) {
+	case *ssa.Const:
+		return x.String()
+	case *ssa.Parameter:
+		return "param:" + rootTypeName(x.Type())
+	case *ssa.UnOp:
+		if x.Op == token.MUL {
+			if p, root := addrPath(x.X); root != nil {
+				return rootTypeName(root.Type()) + "." + p
+			}
+			if w := cellValue(x); w != nil {
+				return valueExpr(c, w, depth+1)
+			}
+		}
+		return x.Op.String() + valueExpr(c, x.X, depth+1)
+	case *ssa.BinOp:
+		return "(" + valueExpr(c, x.X, depth+1) + x.Op.String() + valueExpr(c, x.Y, depth+1) + ")"
+	case *ssa.Call:
+		var args []string
+		for _, a := range x.Call.Args {
+			args = append(args, valueExpr(c, a, depth+1))
+		}
+		return calleeName(x) + "(" + strings.Join(args, ",") + ")"
+	case *ssa.Convert:
+		return valueExpr(c, x.X, depth+1)
+	case *ssa.ChangeType:
+		return valueExpr(c, x.X, depth+1)
+	case *ssa.MakeInterface:
+		return valueExpr(c, x.X, depth+1)
+	case *ssa.Phi:
+		var es []string
+		for _, e := range x.Edges {
+			es = append(es, valueExpr(c, e, depth+1))
+		}
+		sort.Strings(es)
+		return "phi{" + strings.Join(es, "|") + "}"
+	case *ssa.Slice:
+		var es []string
+		for _, e := range variadicOrdered(x) {
+			es = append(es, valueExpr(c, e, depth+1))
+		}
+		return "[" + strings.Join(es, ",") + "]"
+	}
+	return fmt.Sprintf("%T", v)
+}
+
+// checkSameVersionExpr: where the packager's code composes both the file name
+// and the metadata (rpm, apk), the version and release that go into the file
+// name are the very expressions that go into the metadata.
+func checkSameVersionExpr(c *Ctx, r *Report) {
+	if pk := c.PackagerByFormat("rpm"); pk != nil {
+		meta := map[string]string{}
+		for _, fn := range sortedFuncs(c, c.Reach(pk.Package)) {
+			forEachInstr(fn, func(in ssa.Instruction) {
+				st, ok := in.(*ssa.Store)
+				if !ok {
+					return
+				}
+				fa, ok := st.Addr.(*ssa.FieldAddr)
+				if !ok || !isNamed(fa.X.Type(), rpmpackPath, "RPMMetaData") {
+					return
+				}
+				switch f := fieldName(fa.X.Type(), fa.Field); f {
+				case "Version", "Release", "Name", "Arch":
+					meta[f] = valueExpr(c, st.Val, 0)
+				}
+			})
+		}
+		var args []ssa.Value
+		forEachInstr(pk.FileName, func(in ssa.Instruction) {
+			if call, ok := in.(*ssa.Call); ok && calleeIs(call, "fmt", "", "Sprintf") {
+				args = variadicOrdered(call.Call.Args[1])
+			}
+		})
+		if len(args) != 4 {
+			r.Fail("F14-same-expr", "rpm: file name composition", c.pos(pk.FileName.Pos()), "expected the file name to be formatted from name, version, release and architecture")
+		} else {
+			for i, f := range []string{"Name", "Version", "Release", "Arch"} {
+				got := valueExpr(c, args[i], 0)
+				r.Check(got == meta[f], "F14-same-expr", "rpm: "+f+" in the file name is the expression written to the metadata", c.pos(pk.FileName.Pos()),
+					fmt.Sprintf("file name uses %s, metadata uses %s: any extra transformation on one side makes name and header disagree for some input", got, meta[f]))
+			}
+		}
+	}
+	if pk := c.PackagerByFormat("apk"); pk != nil {
+		// the function the template calls for pkgver is the one the file name calls
+		var tfn *ssa.Function
+		for _, ti := range templateConstants(c, c.Reach(pk.Package)) {
+			for _, f := range templateFuncs(c, ti.Fn, "pkgver") {
+				tfn = f
+			}
+		}
+		same := false
+		forEachInstr(pk.FileName, func(in ssa.Instruction) {
+			if call, ok := in.(*ssa.Call); ok && tfn != nil && call.Call.StaticCallee() == tfn {
+				// its result goes into the name unmodified
+				for _, ref := range *call.Referrers() {
+					if _, ok := ref.(*ssa.MakeInterface); ok {
+						same = true
+					}
+				}
+			}
+		})
+		r.Check(same, "F14-same-expr", "apk: version in the file name is the template's pkgver function", c.pos(pk.FileName.Pos()), "the file name must use the unmodified result of the function that renders pkgver in .PKGINFO")
+	}
 }
